@@ -18,6 +18,10 @@ pub struct Inst {
     pub body: Arc<dyn Fn() + Send + Sync>,
     /// Budget of free atomic-call placements (see rt::Config::k); 0 = plain preemption bounding.
     pub k: u32,
+    /// Explicit (preemptions, placements) pairs per tier, each explored completely; when
+    /// non-empty they replace `k`/`p_with_k` (families whose cost grows too fast in either).
+    pub pk_quick: Vec<(u32, u32)>,
+    pub pk_thorough: Vec<(u32, u32)>,
     /// Preemption bound to use together with k (None = the tier's default).
     pub p_with_k: Option<u32>,
     /// Too large for the quick tier at the bound where it is useful.
@@ -109,7 +113,9 @@ pub fn run_local(
 ) -> RunResult {
     let mut out = RunResult::default();
     let mut cfg = cfg.clone();
-    cfg.k = inst.k;
+    if cfg.k == rt::K_FROM_INSTANCE {
+        cfg.k = inst.k;
+    }
     cfg.tls_reverse = inst.tls_reverse;
     let cfgs = cfg_string(&cfg);
     let stats = rt::explore(
@@ -192,7 +198,9 @@ pub fn probe_local(
     let mut ns = Vec::new();
     let mut hist = Vec::new();
     let mut cfg2 = cfg.clone();
-    cfg2.k = inst.k;
+    if cfg2.k == rt::K_FROM_INSTANCE {
+        cfg2.k = inst.k;
+    }
     cfg2.tls_reverse = inst.tls_reverse;
     // A probe is an exploration limited to the prefix depth; the alternatives come from rt::probe.
     let (res, n) = rt::probe(&cfg2, prefix, inst.body.clone(), &mut || before_exec(inst), &mut |res| {
@@ -248,7 +256,9 @@ pub fn probe_local(
 /// Replays one choice vector with a trace; returns (result, trace text).
 pub fn replay_local(inst: &Inst, cfg: &Config, choices: &[u16]) -> ExecResult {
     let mut cfg = cfg.clone();
-    cfg.k = inst.k;
+    if cfg.k == rt::K_FROM_INSTANCE {
+        cfg.k = inst.k;
+    }
     cfg.tls_reverse = inst.tls_reverse;
     cfg.trace = true;
     rt::replay(&cfg, choices, inst.body.clone(), &mut || before_exec(inst), &mut |res| {
